@@ -52,6 +52,7 @@ type result struct {
 	inv, res int64
 	thread   int
 	delay    int // busy iterations between the invocation stamp and the call (widens overlap)
+	meet     func()
 }
 
 var sink atomic.Int64
@@ -133,6 +134,9 @@ func (w *world) execAfter(r *result, gate func()) {
 		gate()
 	}
 	r.inv = w.clock.Add(1)
+	if r.meet != nil {
+		r.meet() // wait (bounded) until every call of this round has taken its invocation stamp
+	}
 	spin(r.delay)
 	switch o.kind {
 	case kAccept:
@@ -437,6 +441,32 @@ func runConcurrent(cp concProgram) ([]*result, bool) {
 		for _, o := range ops {
 			per[t] = append(per[t], &result{o: o, thread: t + 1, delay: cp.delays[t][len(per[t])]})
 		}
+	}
+	// meet: the calls of round i wait for each other right after their invocation stamps, so that
+	// they overlap in (logical) time whatever the OS scheduler does; bounded by 20 ms
+	for i := 0; i < rounds; i++ {
+		n := int64(0)
+		for t := range per {
+			if i < len(per[t]) {
+				n++
+			}
+		}
+		cnt := new(atomic.Int64)
+		for t := range per {
+			if i < len(per[t]) {
+				per[t][i].meet = func() {
+					cnt.Add(1)
+					dl := time.Now().Add(20 * time.Millisecond)
+					for j := 0; cnt.Load() < n; j++ {
+						if j&0xfff == 0xfff && time.Now().After(dl) {
+							return
+						}
+					}
+				}
+			}
+		}
+	}
+	for t := range cp.threads {
 		wg.Add(1)
 		go func(t int) {
 			defer wg.Done()
@@ -525,7 +555,11 @@ func main() {
 		r := rng.Fork()
 		jobs = append(jobs, job{"conc", func() (string, any, bool, []string) {
 			cp := concProgramGen(r)
+			// a run in which nothing overlapped says little: try the same program again (fresh futures)
 			rs, hung := runConcurrent(cp)
+			for a := 0; a < 4 && !hung && !overlaps(rs); a++ {
+				rs, hung = runConcurrent(cp)
+			}
 			tags := []string{"kind=conc", fmt.Sprintf("threads=%d", len(cp.threads))}
 			ov := overlaps(rs)
 			if ov {
